@@ -167,19 +167,102 @@ def suite_labels(seed, tier):
     return r
 
 
+def c18_state_violation(bb):
+    """the assignment clause of C18 on an arbitrary estimator state (after fits, refinements,
+    re-clusterings, parameter changes): None, or what is wrong"""
+    if not bb.is_init:
+        return None
+    n = int(bb.num_fitted_fps)
+    flat = sorted(int(i) for c in bb.get_cluster_mol_ids() for i in c)
+    if flat != list(range(n)):
+        return None                      # not a partition of 0..n-1: C01's business, C18 says nothing
+    for sort in (True, False):
+        cl = bb.get_cluster_mol_ids(sort=sort)
+        truth = [0] * n
+        for k, c in enumerate(cl, 1):
+            for i in c:
+                truth[int(i)] = k
+        for kw in ({}, {"check_valid": False}):
+            try:
+                got = [int(v) for v in bb.get_assignments(sort=sort, **kw)]
+            except Exception as e:
+                return (f"get_assignments(sort={sort}{', check_valid=False' if kw else ''}) refused a state in "
+                        f"which each of the {n} fingerprints is in exactly one cluster: {type(e).__name__}: {e}; "
+                        f"clusters = {[[int(i) for i in c] for c in cl][:8]}")
+            if got != truth:
+                bad = [i for i in range(n) if got[i] != truth[i]][:6]
+                return (f"get_assignments(sort={sort}{', check_valid=False' if kw else ''}): fingerprints {bad} "
+                        f"got labels {[got[i] for i in bad]}, their clusters have ranks {[truth[i] for i in bad]}; "
+                        f"clusters = {[[int(i) for i in c] for c in cl][:8]}")
+    return None
+
+
+def run_states_oracle(h):
+    """history h on the implementation, the assignment clause checked after every operation"""
+    import bblean.bitbirch as bbm
+    bbm._global_merge_accept = None
+    bb = hist.make_bb(h["cfg"])
+    data = {}
+    for k, op in enumerate(h["ops"]):
+        hist.apply_op(bb, op, data, h["nf"])
+        v = c18_state_violation(bb)
+        if v:
+            return k, v
+    return None
+
+
+def gen_state_histories(seed, n):
+    """histories whose fits are followed by refinements / re-clusterings: the states in which the
+    member lists of clusters are no longer increasing"""
+    rng = random.Random(seed + 77)
+    hs = []
+    while len(hs) < n:
+        h = hist.gen_history(rng, max_ops=8, max_rows=rng.choice([6, 12, 24, 40]), with_bad=False)
+        if any(o["op"] in ("refine", "recluster") for o in h["ops"]):
+            hs.append(h)
+    return hs
+
+
+def suite_label_states(seed, tier):
+    import suite_hist
+    hs = gen_state_histories(seed, 600 if tier == "quick" else 12000)
+    r = Result("label-states")
+    states = 0
+    for h in hs:
+        try:
+            v = run_states_oracle(h)
+        except Exception as e:
+            v = (len(h["ops"]) - 1, f"history could not run: {type(e).__name__}: {e}"[:300])
+        states += len(h["ops"])
+        if v:
+            hh = dict(h)
+            hh["ops"] = h["ops"][:v[0] + 1]
+            r.bad.append({"suite": "label-states", "what": v[1], "history": hh, "after_op": v[0]})
+    # the same states on the model (the observation compared includes get_assignments())
+    m = suite_hist._run("label-states-model", hs[:30 if tier == "quick" else 400], walk=False)
+    for b in m.bad:
+        r.bad.append({**b, "suite": "label-states", "what": "model differs at op %s" % b.get("first_mismatch_at_op")})
+    r.cases = len(hs)
+    r.nontrivial = len(hs)
+    r.stats = {"histories": len(hs), "states_checked": states, "on_model": m.cases}
+    r.samples = [{"cfg": hs[0]["cfg"], "ops": [o["op"] for o in hs[0]["ops"]]}]
+    return r
+
+
 def search_c18(seed, tier, failures):
     import replay_util
-    return replay_util.make_search([suite_labels])(seed, tier, failures)
+    return replay_util.make_search([suite_labels, suite_label_states])(seed, tier, failures)
 
 
 def replay_c18(payload):
     import replay_util
-    return replay_util.make_replay([suite_labels])(payload)
+    return replay_util.make_replay([suite_labels, suite_label_states])(payload)
 
 
 if __name__ == "__main__":
     import sys
-    rr = suite_labels(int(sys.argv[1]) if len(sys.argv) > 1 else 1, sys.argv[2] if len(sys.argv) > 2 else "quick")
-    print(rr.name, rr.cases, rr.nontrivial, len(rr.bad), rr.stats)
-    for b in rr.bad[:3]:
-        print(str(b)[:600])
+    for su in (suite_labels, suite_label_states):
+        rr = su(int(sys.argv[1]) if len(sys.argv) > 1 else 1, sys.argv[2] if len(sys.argv) > 2 else "quick")
+        print(rr.name, rr.cases, rr.nontrivial, len(rr.bad), rr.stats)
+        for b in rr.bad[:3]:
+            print(str(b)[:600])
